@@ -81,6 +81,42 @@ def check_metric(case, rec):
                 raise Violation("pdist-linkage", f"linkage gives {Z.shape}")
 
 
+def check_large_pdist(case, rec):
+    """calc_pdist_vector on m around 2^k: strings come from a small pool, so the true distances are memoised."""
+    m = case["m"]
+    pool = case["pool"]
+    w = case.get("weights")
+    X = [pool[(i * 5 + i // 7) % len(pool)] for i in range(m)]
+    metric = Levenshtein() if w is None else WeightedLevenshtein(*w)
+    memo = {}
+
+    def d(a, b):
+        if (a, b) not in memo:
+            memo[(a, b)] = O.lev(a, b) if w is None else O.wlev(a, b, *w)
+        return memo[(a, b)]
+    rec.note(case, True, [f"m={m}"])
+    v = np.asarray(call("pdist-large", metric.calc_pdist_vector, list(X)))
+    if v.shape != (m * (m - 1) // 2,):
+        raise Violation("pdist-length", f"m={m}: shape {v.shape}, expected {(m * (m - 1) // 2,)}")
+    vl = v.tolist()
+    k = 0
+    for i in range(m - 1):
+        xi = X[i]
+        for j in range(i + 1, m):
+            if vl[k] != d(xi, X[j]):
+                raise Violation("pdist-layout", f"m={m} weights={w}: entry {k} for (i={i}, j={j}) = {vl[k]!r}, d(X[i]->X[j]) = {d(xi, X[j])}")
+            k += 1
+    call("squareform", squareform, v)
+
+
+def enum_large_pdist(tier):
+    pool = ["A", "AC", "CA", "AAC", "ACC", "CCA", "AACC", "C", "CCCC", "", "WAC", "ACW"]
+    for m in ([255, 256, 257, 1023, 1024, 1025] if tier == "quick" else [511, 512, 513, 1023, 1024, 1025, 2047, 2048, 2049]):
+        yield {"m": m, "pool": pool}
+        if m % 2:
+            yield {"m": m, "pool": pool, "weights": [1, 2, 3]}
+
+
 # functional helpers ---------------------------------------------------------
 def f_lev(a, b):
     return O.lev(a, b)
@@ -194,6 +230,7 @@ def functional_case(draw, tier="quick"):
 
 
 SUBS = [
+    Sub("large_pdist", check_large_pdist, enum=enum_large_pdist),
     Sub("metric_objects", check_metric, strategy=lambda t: metric_case(t), budget=(2500, 25000)),
     Sub("functional", check_functional, strategy=lambda t: functional_case(t), budget=(2000, 20000)),
 ]
